@@ -7,6 +7,7 @@ package c11
 
 import (
 	"fmt"
+	"os"
 	"reflect"
 	"sort"
 	"strconv"
@@ -401,31 +402,51 @@ func descList(vs []reflect.Value) string {
 func TestC11(t *testing.T) {
 	c := h.New(t, "C11")
 	defer c.Finish()
+	// C11_ONLY=<sub-check>[,<sub-check>] generates cases for those sub-checks only (development aid; the
+	// driver never sets it)
+	only := func(name string, n int) int {
+		v := os.Getenv("C11_ONLY")
+		if v == "" {
+			return n
+		}
+		for _, s := range strings.Split(v, ",") {
+			if s == name {
+				return n
+			}
+		}
+		return 0
+	}
 	c.Rule("calls: reflect.FuncOf signature over the pool (0-4 fixed parameters, optional variadic tail, 0-3 results) with a recording MakeFunc host; arguments are script literals (int, float, string, bool, nil, list, map) or bound Go pool values, aimed at the parameter types 87% of the time; shapes fixed/variadic x plain/spread, 20% wrong counts; non-trivial = some argument needs a non-identity conversion or the function is variadic or the call spreads or there are >= 2 results; distinct by (signature, source, bound values)")
-	h.Run(c, "calls", c.N(100000, 400000), genCallCase, callOracle)
+	h.Run(c, "calls", only("calls", c.N(100000, 400000)), genCallCase, callOracle)
 	c.Rule("members: struct pool value S reached by value, by pointer, as addressable slice element, as map value, inside a script list, through a pointer field; field read, field write (value aimed at the field type), method call (8 value-receiver and 4 pointer-receiver methods incl. variadic and multi-result, arguments as in calls, also through a bound method value), unknown member; reference = Go's own field access / method call on a copy with goConvert'ed parameters; non-trivial = everything except a plain field read on a by-value receiver")
-	h.Run(c, "members", c.N(40000, 160000), genMemCase, memOracle)
+	h.Run(c, "members", only("members", c.N(40000, 160000)), genMemCase, memOracle)
 	c.Rule("history: 2-3 values of struct types that share the field names A,B,C,D,E at different positions (4 unnamed struct literals, 3 reflect.StructOf types, 3 function-local types all named P, script-made make(struct{...}) with drawn field order), bound by pointer or by value; 2-4 member reads/writes in drawn order (the same field name is preferred on consecutive steps), every read judged against Go's own field access on a reference copy, final states compared; non-trivial = at least two distinct struct types in the history")
-	h.Run(c, "history", c.N(20000, 80000), genHistCase, histOracle)
+	h.Run(c, "history", only("history", c.N(20000, 80000)), genHistCase, histOracle)
 	c.Rule("callbacks: script function (fixed arity, variadic, fixed+variadic, wrong arity) passed where a MakeFunc host expects func(T1..Tn)(R1..Rm), n<=3 (n = 4..7 one time in five), m<=2; host invokes it 1-2 times with pool values; the function reports its parameters to a Go recorder and returns literals / its own parameters / wrong counts, throws or hits a runtime error; with and without try/catch around the enclosing call; all cases non-trivial")
-	h.Run(c, "callbacks", c.N(40000, 160000), genCbCase, cbOracle)
+	h.Run(c, "callbacks", only("callbacks", c.N(40000, 160000)), genCbCase, cbOracle)
 	c.Rule("identity: Go pool value (46 types x seeds) bound to x and read back through 0-4 of: list element, map member/index, Go id(x), Go variadic idv, script identity functions (fixed, 2-ary, variadic, list-returning), variable, multi-assignment, ternary, parentheses; non-trivial = at least one step; distinct by (type, seed, source)")
-	h.Run(c, "identity", c.N(25000, 100000), genIdCase, idOracle)
+	h.Run(c, "identity", only("identity", c.N(25000, 100000)), genIdCase, idOracle)
 	c.Rule("named: a named slice, integer or map Go type with value- and pointer-receiver methods, bound by pointer, by value, or as a pointer held in a script list / map; 1-4 method calls in a row judged against Go's own calls on a twin (results and the value left behind the pointer); a pointer-receiver method on a by-value binding must be an error; all cases non-trivial")
-	h.Run(c, "named", c.N(6000, 40000), genNamed, oracleNamed)
+	h.Run(c, "named", only("named", c.N(6000, 40000)), genNamed, oracleNamed)
 	c.Rule("nilbind: 2-4 names bound to nil with Env.Define in one or in two unrelated environments, optionally one more bound after the write; a script writes a value to the first one (through a pointer, a pointer passed to a function, a pointer to the pointer, or by assignment); every other name must still read nil, from the host and from a script; all cases non-trivial")
-	h.Run(c, "nilbind", c.N(3000, 20000), genNilBind, oracleNilBind)
+	h.Run(c, "nilbind", only("nilbind", c.N(3000, 20000)), genNilBind, oracleNilBind)
 	c.Rule("parallel: a script function (1-3 parameters; returns its first parameter, their sum, or their joined text) handed to a Go function as func(int64...) interface{} and invoked from 2/4/8 goroutines at once, 200-3000 calls each with arguments unique to the call, GOMAXPROCS 2/4/16; every invocation must return the value computed from its own arguments; non-trivial = at least 2 goroutines")
-	h.Run(c, "parallel", c.N(60, 400), genParallel, oracleParallel)
+	h.Run(c, "parallel", only("parallel", c.N(60, 400)), genParallel, oracleParallel)
 	c.Rule("reconv: one script list or map handed to a Go function ([]int64 / []float64 / []string / map[string]int64 parameter) 2-4 times and changed in place between the calls; every call must receive the container as it is at that moment; all cases non-trivial. arrayptr: a list of 0-5 elements (untyped or []int64) passed to a Go parameter of type [3]int64, [0]int64, *[3]int64 or *[3]interface{}: an error or an exact image, never a panic")
-	h.Run(c, "reconv", c.N(4000, 30000), genReconv, oracleReconv)
-	h.Run(c, "arrayptr", c.N(1500, 8000), genArrayPtr, oracleArrayPtr)
+	h.Run(c, "reconv", only("reconv", c.N(4000, 30000)), genReconv, oracleReconv)
+	h.Run(c, "arrayptr", only("arrayptr", c.N(1500, 8000)), genArrayPtr, oracleArrayPtr)
 	c.Rule("gocall: the signatures, arguments and reference of `calls` (0-3 fixed parameters, variadic tail half of the time, spread half of the time, 15% wrong counts) with the call launched by the go statement, through the routes name / variable / map member / parenthesised; the recording host hands its parameters to the oracle over a channel; judged when the reference says the call succeeds: no error, the host is invoked (waited for, 20 s before 'never') with exactly the planned parameters; all cases non-trivial")
-	h.Run(c, "gocall", c.N(2500, 12000), genGoCallCase, goCallOracle)
+	h.Run(c, "gocall", only("gocall", c.N(2500, 12000)), genGoCallCase, goCallOracle)
 	c.Rule("vcallbacks: script function passed where a MakeFunc host expects a VARIADIC func type func(T1..Tk, ...E) [interface{} | int64], k = 0-3, E = int64 / string / interface{} (70%) or any pool type; directly, as second parameter, bound to a variable first, or as the element of a []func parameter; the host invokes it 1-3 times with 0, 1 or several (up to 4) variadic arguments, written one by one or handed over as a slice (f(a, xs...)); the script function is variadic from the same position (60%), from an earlier position (30%) or not variadic (10%: only its fixed parameters are judged); it reports its parameters to a Go recorder and returns nothing, its variadic list, the length of that list, or throws; all cases non-trivial")
-	h.Run(c, "vcallbacks", c.N(9000, 40000), genVCbCase, vcbOracle)
+	h.Run(c, "vcallbacks", only("vcallbacks", c.N(9000, 40000)), genVCbCase, vcbOracle)
 	c.Rule("liveargs: a Go function (recording MakeFunc host reached by name / variable / map member / deferred, or a pointer-receiver method with interface{} parameters; fixed or variadic, plain or with a spread last argument) called with 2-4 argument expressions over 1-2 places (element of a bound or script-made typed slice, element of a bound []interface{}, field of a bound *S, field of an element of a bound []S, dereferenced bound pointer; controls: variable, script list element, map entry): an argument reads a place, calls a script function or a Go function that overwrites a place and returns a number (or a list that is spread), or is a literal; parameter types are the value's own type, interface{}, or a converting type; reference: one left-to-right walk over the list; non-trivial = some place is read and overwritten by a later argument (80% by construction)")
-	h.Run(c, "liveargs", c.N(7000, 30000), genLiveCase, liveOracle)
+	h.Run(c, "liveargs", only("liveargs", c.N(7000, 30000)), genLiveCase, liveOracle)
 	c.Rule("goseq: a script of 2-4 calls of 1-4 recording MakeFunc hosts (signatures, arguments and reference of `calls`: 0-3 fixed parameters, variadic tail six times in ten, spread half of the time, counts always fitting), every call plain (30%) or launched with go (70%), through the routes name / variable / map member / parenthesised; a later call uses the host of an earlier one six times in ten (same function, new arguments); between two calls sometimes an unrelated statement (a Go call, a variadic Go call, a variadic or fixed script function call, an assignment); calls whose own reference is not 'succeeds' are left out of the script (counted); judged: no error, and per host the invocations received (waited for, 20 s before 'never') are exactly the planned ones, one per call, in any order; non-trivial = at least two judged calls")
-	h.Run(c, "goseq", c.N(6000, 30000), genGoSeqCase, goSeqOracle)
+	h.Run(c, "goseq", only("goseq", c.N(6000, 30000)), genGoSeqCase, goSeqOracle)
+	c.Rule("laterargs: a function body (named, anonymous, or the top level) of 1-2 calls of Go functions - deferred (60%), launched with go (30%) or plain; recording MakeFunc host by name / variable / map member / parenthesised, or a pointer-receiver method; fixed arity (70%) or variadic; 1-3 arguments, each the read of a place (kinds of liveargs: element of a bound or script-made typed slice, of a bound []interface{}, field of a bound *S, field of an element of a bound []S, dereferenced bound pointer; controls: variable, script list element, map entry) or a literal; parameter types: the value's own type, interface{}, or a converting type - and, after every call statement, 0-3 stores into the places (assignment, a script function that assigns, a Go function that stores Go-side), nine times in ten first of all into the place the LAST argument read; reference: one walk over the body, a call receives the values its places held when its statement was executed; go calls are waited for (20 s before 'never'); non-trivial = a place read by a deferred or go call is stored into afterwards")
+	h.Run(c, "laterargs", only("laterargs", c.N(6000, 30000)), genLaterCase, laterOracle)
+	c.Rule("ptrmix: a recording MakeFunc host with 1-3 parameters of type T, *T or **T over 13 base types (int64, int32, float64, string, MyInt, MyStr, S, []int64, map[string]int64, bool, uint8, [2]int64, interface{}), one time in five as element type of a slice or value type of a map parameter, one time in four with a variadic tail; every argument (element) is a value or literal, a pointer 1-3 levels deep, a typed nil pointer or nil, of the same base type (60%), of a base type Go converts (25%) or of any other; pointer depth equal to the parameter's (35%), one less / one more (53%); four call shapes, routes name / variable / map member / parenthesised, hops as in calls; reference: planCall / goConvert, where a value for a pointer parameter and a non-nil pointer for a non-pointer, non-interface parameter have no conversion; non-trivial = some argument's pointer depth differs from its parameter's")
+	h.Run(c, "ptrmix", only("ptrmix", c.N(6000, 30000)), genPmCase, pmOracle)
+	c.Rule("retained: a script function (0-3 parameters over the pool, or variadic; 0-2 declared results; returns parameters / values aimed at the result types, or throws; written in place or bound to a name first) is handed to a Go function that KEEPS it - as the only or the second parameter, in a variadic tail, as element of a []func, as value of a map[string]func, through a spread list - by a run whose context is context.Background(), a context that stays live (controls), or a context that is cancelled / released / whose parent is cancelled once that run has returned (75%); then Go invokes it 1-3 times: during the receiving call (first invocation only), directly from Go, or from a later run (vm.Execute, a run with a live context of its own, a run in another environment; with try/catch one time in four); every invocation judged like one of `callbacks`: the function sees the arguments Go passes, the Go caller receives the converted results, an error surfaces as an error of the enclosing call of the later run; non-trivial = an invocation after the context of the handing run was cancelled")
+	h.Run(c, "retained", only("retained", c.N(4000, 20000)), genRetCase, retOracle)
 }
